@@ -78,6 +78,57 @@ def history(args):
                 res["viol"].append(("crash during build: " + r.sanitizer, wit(r))); return res
             if r.rc != 0:
                 res["inconclusive"].append("initial build failed: " + r.text[-200:]); return res
+        # --- whole-build cancellation while commands run (frontend client only): the build must report failure, and the next build must
+        # re-execute every command that was started but did not finish successfully, and converge
+        if use_driver and rnd.random() < 0.6:
+            shells = [c for c in desc.cmds.values() if c.tool == "shell"]
+            for c in shells:
+                c.salt = "k%d" % rnd.randint(0, 99)     # make everything re-run
+                c.sleep_ms = rnd.choice([0, 5, 20, 40])
+            sb.write_desc(desc)
+            jobs = rnd.choice([None, 4])
+            k = rnd.randint(3, 40)
+            r = run_events(binp, sb, None, jobs, keep_going, cancel_on=k)
+            res["builds"] += 1
+            res["cancel_builds"] = res.get("cancel_builds", 0) + 1
+            log.append("build(jobs=%r, cancel on delegate event %d) rc=%d ran=%s" % (jobs, k, r.rc, r.ran))
+            if r.timed_out:
+                res["viol"].append(("hang: cancelled build did not terminate", wit(r))); return res
+            if r.sanitizer:
+                res["viol"].append(("crash during cancelled build: " + r.sanitizer, wit(r))); return res
+            issued = any(e.get("ev") == "cancelIssued" for e in r.events)
+            fin = {}
+            for e in r.events:
+                if e.get("ev") == "finished":
+                    fin[e["cmd"]] = e["status"]
+            started = [e["cmd"] for e in r.events if e.get("ev") == "started"]
+            unfinished = [c for c in started if fin.get(c) != 0 and desc.cmds.get(c) is not None and desc.cmds[c].tool == "shell"]
+            after_cancel_started = []
+            seen_cancel = False
+            for e in r.events:
+                if e.get("ev") == "cancelIssued":
+                    seen_cancel = True
+                elif seen_cancel and e.get("ev") == "buildEnd":
+                    break
+            if issued and unfinished and r.rc == 0:
+                res["viol"].append(("cancelled build reported success although commands were cancelled", wit(r, dict(unfinished=unfinished)))); return res
+            if issued:
+                res["cancels_issued"] = res.get("cancels_issued", 0) + 1
+            for c in shells:
+                c.sleep_ms = 0
+            # sleep_ms is part of the command line: changing it back re-runs everything anyway; keep the salt so only the definition change applies
+            sb.write_desc(desc)
+            r = run_events(binp, sb, None, jobs, keep_going)
+            res["builds"] += 1
+            log.append("build(jobs=%r) rc=%d ran=%s" % (jobs, r.rc, r.ran))
+            if r.sanitizer:
+                res["viol"].append(("crash during build: " + r.sanitizer, wit(r))); return res
+            if r.rc != 0:
+                res["viol"].append(("the build after a cancelled build fails", wit(r))); return res
+            badfiles, pr = bh.check_outputs(sb, desc, desc.targets[""])
+            if badfiles and not pr.fails:
+                res["viol"].append(("after a cancelled build the next build did not converge to the clean-build state", wit(r, badfiles[:4]))); return res
+            res["nontrivial"] = res["nontrivial"] or bool(issued and unfinished)
         for rd in range(nrounds):
             shells = [c for c in desc.cmds.values() if c.tool == "shell"]
             # make sure the victims will really run: edit one of their inputs (or they were never built)
@@ -211,11 +262,11 @@ def run(tier, replay):
             w = json.load(open(replay))["witness"]
             jobs = [(w["seed"], w["index"], sd, binp, 4)]
         results = vlib.pmap(history, jobs)
-        tot = dict(builds=0, failing_builds=0, retry_builds=0, repair_builds=0, failures_injected=0, commands_run=0)
+        tot = dict(builds=0, failing_builds=0, retry_builds=0, repair_builds=0, failures_injected=0, commands_run=0, cancel_builds=0, cancels_issued=0)
         modes, shapes = {}, set()
         for r in results:
             for k in tot:
-                tot[k] += r[k]
+                tot[k] += r.get(k, 0)
             for k, v in r["modes"].items():
                 modes[k] = modes.get(k, 0) + v
             if r["nontrivial"]:
